@@ -59,7 +59,11 @@ func genC16(rng *Rng, workdir string, idx int) (coq []string, ops []dOp, fails [
 			fails = append(fails, MonitorFailure{Property: "C16", Signature: sig, What: what, Replay: cp})
 		}
 	}
-	names := []string{"alpha", "beta", "g", "t\xc3\xa9"}
+	names := [][]string{
+		{"alpha", "beta", "g", "t\xc3\xa9"},
+		{"songs", "Songs", "SONGS", "song"}, // names that differ only in case are different tables
+		{"ab", "aB", "a", "b"},
+	}[rng.Intn(3)]
 	// oracle: what each table must contain (nil = does not exist)
 	oracle := map[string]map[string]string{}
 	type hinfo struct {
@@ -248,7 +252,7 @@ func genC16(rng *Rng, workdir string, idx int) (coq []string, ops []dOp, fails [
 				if live != (code == 0) {
 					fail("put-on-handle", fmt.Sprintf("Put on a %v handle returned %d", live, code))
 				}
-				if code == 0 {
+				if code == 0 && oracle[h.name] != nil {
 					oracle[h.name][string(k)] = string(v)
 				}
 			case q < 38: // delete
@@ -399,7 +403,7 @@ func runC16(o *Out, rng *Rng, tier string, replay string) {
 	} else if tier == "search" {
 		n = 800
 	}
-	o.sum.Rule = "case = sequence of 15-70 operations on a real LevelDB directory through the wrapper: create/open/close/drop/release of four tables (one non-ASCII name), put/get/delete with empty, 0xff and multi-byte keys, prefix iteration (empty, 0xff, partial prefixes), snapshots read after later writes, batches of size 1-40 with 0-9 puts/deletes and reads in between, operations on stale handles; every result compared with the model; Go map oracle as monitor; non-trivial = a table dropped while open plus a snapshot read after a write or a batch that flushed before release; distinct by script hash"
+	o.sum.Rule = "case = sequence of 15-70 operations on a real LevelDB directory through the wrapper: create/open/close/drop/release of four tables (one non-ASCII name, or names that differ only in case, or short names sharing a prefix), put/get/delete with empty, 0xff and multi-byte keys, prefix iteration (empty, 0xff, partial prefixes), snapshots read after later writes, batches of size 1-40 with 0-9 puts/deletes and reads in between, operations on stale handles; every result compared with the model; Go map oracle as monitor; non-trivial = a table dropped while open plus a snapshot read after a write or a batch that flushed before release; distinct by script hash"
 	wd := filepath.Join(o.dir, "ldbs")
 	for c := 0; c < n; c++ {
 		coq, ops, fails, stat := genC16(rng.Fork(), wd, c)
